@@ -36,6 +36,26 @@ var c04Reqs = []c04Req{
 	{"X-A:1,X-B:3", [][2]string{{"X-A", "1"}, {"X-B", "3"}}},
 }
 
+// requests that force a validation (the origin answers with a full 200, which replaces the selected entry)
+var c04NoCache = []c04Req{
+	{"none+no-cache", [][2]string{{"Cache-Control", "no-cache"}}},
+	{"X-A:1+no-cache", [][2]string{{"X-A", "1"}, {"Cache-Control", "no-cache"}}},
+	{"X-A:2+no-cache", [][2]string{{"X-A", "2"}, {"Cache-Control", "no-cache"}}},
+	{"X-A:1,X-B:2+no-cache", [][2]string{{"X-A", "1"}, {"X-B", "2"}, {"Cache-Control", "no-cache"}}},
+}
+
+// narrow alphabet for the deeper plan
+var c04Narrow = []c04Req{
+	{"X-A:1,X-B:2", [][2]string{{"X-A", "1"}, {"X-B", "2"}}},
+	{"X-A:1,X-B:2+no-cache", [][2]string{{"X-A", "1"}, {"X-B", "2"}, {"Cache-Control", "no-cache"}}},
+	{"X-A:1,X-B:3", [][2]string{{"X-A", "1"}, {"X-B", "3"}}},
+	{"X-A:2,X-B:2", [][2]string{{"X-A", "2"}, {"X-B", "2"}}},
+	{"X-A:2,X-B:2+no-cache", [][2]string{{"X-A", "2"}, {"X-B", "2"}, {"Cache-Control", "no-cache"}}},
+	{"none", nil},
+}
+
+var c04NarrowVarys = []string{"", "X-A", "X-B", "X-A, X-B", "*"}
+
 var c04Varys = []string{"", "X-A", "X-A, X-B", "X-B, X-A", "x-a", "Accept-Encoding", "*", "X-A, Accept-Encoding"}
 
 // varyClass is the oracle's equivalence class of a request's value for field f.
@@ -65,10 +85,17 @@ func varyClass(h http.Header, f string) string {
 }
 
 func runC04(x *mc.X) {
+	plan := mc.Pick(x, "plan", []string{"wide", "narrow-deep"})
 	depth := 3
-	reqs, varys := c04Reqs, c04Varys
+	reqs, varys := append(append([]c04Req{}, c04Reqs...), c04NoCache...), c04Varys
+	if x.Tier() != "thorough" {
+		varys = []string{"", "X-A", "X-A, X-B", "Accept-Encoding", "*"}
+	}
+	if plan == "narrow-deep" {
+		depth, reqs, varys = 4, c04Narrow, c04NarrowVarys
+	}
 	if x.Tier() == "thorough" {
-		depth = 4
+		depth++
 	}
 	w := world.New(world.Opt{})
 	defer w.Close()
@@ -77,8 +104,8 @@ func runC04(x *mc.X) {
 		ri := x.Choose(fmt.Sprintf("step%d.request", step), len(reqs))
 		x.Trace[len(x.Trace)-1].Desc = reqs[ri].name
 		vary := mc.Pick(x, fmt.Sprintf("step%d.origin-vary", step), varys)
-		if x.Tier() == "thorough" && step == 4 && (ri > 7 || vary == "x-a" || vary == "X-B, X-A") {
-			x.Skip() // thorough: the fourth step uses the reduced menus
+		if x.Tier() == "thorough" && plan == "wide" && step == 4 && (ri > 7 || vary == "x-a" || vary == "X-B, X-A" || vary == "X-A, Accept-Encoding") {
+			x.Skip() // thorough: the fourth step of the wide plan uses reduced menus
 		}
 		h := H("Cache-Control", "max-age=100000")
 		h = hdrIf(h, "Vary", vary)
@@ -94,7 +121,7 @@ func runC04(x *mc.X) {
 		if o.Panic != nil || o.Err != nil {
 			return
 		}
-		x.State(fmt.Sprint(step), reqs[ri].name, obsClass(o), w.Conn.Snapshot())
+		x.State(fmt.Sprint(step), reqs[ri].name, obsClass(o), strings.Join(w.Conn.Keys(), "\n"), o.Tok)
 		if len(o.Calls) > 0 || o.Tok == "" {
 			continue // answered by the origin in this exchange
 		}
